@@ -189,3 +189,84 @@ End Chain.
 
 (* the struct the Python constructor hands to cosmo_new, over R *)
 Definition DH_of (H0 : R) : R := PY_CLIGHT_R / H0.
+
+Local Close Scope R_scope.
+
+(* ------------------------------------------------------------------------------------------ *)
+(* (2b) the C wrappers of cosmolib_pywrap.c as what they are: a zero-initialised result array   *)
+(* (PyArray_ZEROS) of n = PyArray_SIZE(<one of the array arguments>) slots and the loop          *)
+(*   for (i=0; i<n; i++) res[i] = f(<arg1 or arg1[i]>, <arg2 or arg2[i]>);                       *)
+(* ------------------------------------------------------------------------------------------ *)
+Fixpoint c_loop {B} (todo i : nat) (body : nat -> B) (res : list B) : list B :=
+  match todo with
+  | O => res
+  | S k => c_loop k (S i) body (set_nth res i (body i))
+  end.
+
+(* how the loop body reads an argument: the parsed double, or element i of the array data *)
+Inductive akind := KScalar | KIndexed.
+Record wrapper := mkW { w_k1 : akind; w_k2 : akind; w_size_first : bool }.
+
+Definition arg_len {A} (a : zarg A) : nat := match a with Sc _ => 1%nat | Ar l => length l end.
+(* an argument read in a way its parse format does not provide (a scalar indexed, an array pointer used as a
+   double) does not compile in C; the model answers the default [d] *)
+Definition arg_at {A} (d : A) (k : akind) (a : zarg A) (i : nat) : A :=
+  match k, a with
+  | KScalar, Sc x => x
+  | KIndexed, Ar l => nth i l d
+  | _, _ => d
+  end.
+Definition run_wrapper {A B} (d : A) (zero : B) (w : wrapper) (f : A -> A -> B) (a b : zarg A) : list B :=
+  let n := arg_len (if w_size_first w then a else b) in
+  c_loop n 0 (fun i => f (arg_at d (w_k1 w) a i) (arg_at d (w_k2 w) b i)) (repeat zero n).
+Definition run_wrapper1 {A B} (d : A) (zero : B) (g : A -> B) (xs : list A) : list B :=
+  c_loop (length xs) 0 (fun i => g (nth i xs d)) (repeat zero (length xs)).
+
+(* the three wrappers as written in cosmolib_pywrap.c (Gen.WRAP_* regenerates these flags from the C source) *)
+Definition W_vec1 := mkW KIndexed KScalar true.      (* "Od": n = size(arg1); f(arg1[i], arg2)    *)
+Definition W_vec2 := mkW KScalar KIndexed false.     (* "dO": n = size(arg2); f(arg1, arg2[i])    *)
+Definition W_2vec := mkW KIndexed KIndexed true.     (* "OO": n = size(arg1); f(arg1[i], arg2[i]) *)
+
+(* the Python dispatch with the C wrappers plugged in *)
+Definition dispatch2_c {A B} (d : A) (zero : B) (w1 w2 w3 : wrapper) (f : A -> A -> B) (a b : zarg A) : result (zarg B) :=
+  match a, b with
+  | Sc x, Sc y => Ok (Sc (f x y))
+  | Ar _, Sc _ => Ok (Ar (run_wrapper d zero w1 f a b))
+  | Sc _, Ar _ => Ok (Ar (run_wrapper d zero w2 f a b))
+  | Ar xs, Ar ys => if Nat.eqb (length xs) (length ys) then Ok (Ar (run_wrapper d zero w3 f a b)) else Err EValue
+  end.
+
+(* ------------------------------------------------------------------------------------------ *)
+(* (4) history: a process holding several objects                                              *)
+(* ------------------------------------------------------------------------------------------ *)
+Section History.
+  Context {num : Type}.
+  Variables (zero one h_scale clight : num) (sub mul div : num -> num -> num) (is_zero : num -> bool).
+  Notation obj := (@cosmo_obj num).
+  Notation mk := (construct zero one h_scale clight sub mul div is_zero).
+  Notation cp := (apply_op zero one h_scale clight sub mul div is_zero).
+
+  (* the store: slot i holds the object bound to handle i (None after del) *)
+  Definition store := list (option obj).
+  Inductive hstep :=
+  | HNew (a : @ctor_args num)                 (* a new handle (appended) *)
+  | HClone (src : nat) (op : clone_op)        (* a new handle holding a clone of handle src *)
+  | HReinit (i : nat) (a : @ctor_args num)    (* handle i re-initialised in place *)
+  | HDel (i : nat)
+  | HObserve (i : nat).                       (* any accessor / distance method: reads handle i *)
+
+  Definition hget (s : store) (i : nat) : option obj := nth i s None.
+  Definition hrun1 (s : store) (st : hstep) : store :=
+    match st with
+    | HNew a => s ++ [Some (mk a)]
+    | HClone src op => s ++ [option_map (fun o => cp o op) (hget s src)]
+    | HReinit i a => match hget s i with Some _ => set_nth s i (Some (mk a)) | None => s end
+    | HDel i => set_nth s i None
+    | HObserve _ => s
+    end.
+  Definition hrun (s : store) (l : list hstep) : store := fold_left hrun1 l s.
+
+  (* what a method call on handle i returns: a function [dist] of the C struct's fields of THAT object only *)
+  Definition hobserve {T} (dist : num -> bool -> num -> num -> num -> T) (s : store) (i : nat) : option T :=
+    option_map (fun o => dist (c_DH o) (c_flat o) (c_om o) (c_ol o) (c_ok o)) (hget s i).
+End History.
